@@ -53,7 +53,7 @@ def gen(tier, rng):
         if nd >= 2 and rng.random() < 0.25:
             # extra coords coupled to / spanning several cube axes, attached in any axis order
             tabs = []
-            k = rng.choice(["sky2", "q2", "wcsec"])
+            k = rng.choice(["sky2", "q2", "wcsec", "skymesh"])
             if k == "wcsec":
                 ne = rng.randint(1, nd)
                 new = rng.choice([1, 2, 3])
@@ -64,6 +64,14 @@ def gen(tier, rng):
                 ec2 = {"k": k, "mapping": rng.sample(range(ne), ne), "mat": emat}
             else:
                 ec2 = {"k": k, "axes": rng.sample(range(nd), 2), "seed": rng.randrange(10 ** 6)}
+                if k == "skymesh":
+                    # a meshed SkyCoord (two 1-D components of ONE length) on two cube axes; both axes are treated alike
+                    # (same length, same earlier slice / rebin, same bin), so that the two new grids have one shape
+                    a_, b_ = ec2["axes"]
+                    shape[b_] = shape[a_]
+                    bins[b_] = bins[a_]
+                    if pre_arg is not None:
+                        pre_arg[b_] = pre_arg[a_] if pre == "rebinned" else list(pre_arg[a_])
         key = f"{fam}|{shape}|{pre}|{pre_arg}|{bins}|{tabs}|{ec2}"
         cases.append({"key": key, "stratum": f"{fam}-{pre}" if not ec2 else f"ec-{ec2['k']}", "fam": fam, "shape": shape, "pre": pre, "pre_arg": pre_arg,
                       "bins": bins, "tabs": tabs, "ec2": ec2, "nontrivial": any(b > 1 for b in bins),
@@ -110,7 +118,9 @@ def _add_coupled(cube, ec2):
     rs = np.random.RandomState(ec2["seed"])
     ta = np.cumsum(rs.randint(1, 5, size=shape[a])).astype(float)
     tb = np.cumsum(rs.randint(1, 5, size=shape[b])).astype(float) * 0.5
-    if ec2["k"] == "q2":
+    if ec2["k"] == "skymesh":
+        cube.extra_coords.add(("lon", "lat"), (a, b), SkyCoord(ta * u.deg, tb * u.deg), mesh=True)
+    elif ec2["k"] == "q2":
         cube.extra_coords.add(("qa", "qb"), (a, b), QuantityTableCoordinate(ta * u.m, tb * u.m, names=("qa", "qb"),
                                                                              physical_types=("custom:qa", "custom:qb")))
     else:
